@@ -215,6 +215,29 @@ class Policy:
                     self._plan = plan
             nxt = self._plan.pop(0)
             return 0 if nxt is None else nxt
+        if k == "fscycle":
+            # file-system histories across steps: delete a file / folder with the ordinary action, let ticks pass, bring it back (or delete it)
+            # through a terminal command that reaches the file-system level requests no action type forms, create, repeat
+            if not getattr(self, "_plan", None):
+                amap = env.agent.action_manager.action_map
+                cmds = [(i, o) for i, (a, o) in amap.items() if a == "node-send-local-command" and isinstance(o.get("command"), list) and o["command"][:1] == ["file_system"]
+                        and o.get("password") == "admin"]
+                plan = [None]
+                if cmds:
+                    i0, o0 = self.rnd.choice(cmds)
+                    h = o0["node_name"]
+                    mine = [(i, o) for i, o in cmds if o["node_name"] == h]
+                    acts = [i for i, (a, o) in amap.items() if o.get("node_name") == h and a in ("node-file-delete", "node-file-create", "node-folder-create", "node-file-restore",
+                                                                                                   "node-folder-restore", "node-file-corrupt")]
+                    for _ in range(6):
+                        if acts and self.rnd.random() < 0.6:
+                            plan.append(self.rnd.choice(acts))
+                        plan += [None] * self.rnd.randint(0, 2)
+                        plan.append(self.rnd.choice(mine)[0])
+                        plan += [None] * self.rnd.randint(0, 2)
+                self._plan = plan
+            nxt = self._plan.pop(0)
+            return 0 if nxt is None else nxt
         if k == "nic":
             # toggle interfaces / ports while traffic is flowing: a NIC that carried traffic earlier in the SAME step and is then disabled
             amap = env.agent.action_manager.action_map
